@@ -620,11 +620,18 @@ class _SetOperation(Selectable, Term):  # type:ignore[misc]
             parameterizer=ctx.parameterizer,
         )
         set_ctx = ctx.copy(subquery=self.base_query.wrap_set_operation_queries)
-        base_querystring = self.base_query.get_sql(set_ctx)
+
+        def operand_sql(query: "QueryBuilder") -> str:
+            # an operand with its own ORDER BY / LIMIT / OFFSET needs parentheses in every dialect
+            if query._orderbys or query._limit is not None or query._offset is not None:
+                return query.get_sql(set_ctx.copy(subquery=True))
+            return query.get_sql(set_ctx)
+
+        base_querystring = operand_sql(self.base_query)
 
         querystring = base_querystring
         for set_operation, set_operation_query in self._set_operation:
-            set_operation_querystring = set_operation_query.get_sql(set_ctx)
+            set_operation_querystring = operand_sql(set_operation_query)
 
             if len(self.base_query._selects) != len(set_operation_query._selects):
                 raise SetOperationException(
